@@ -14,7 +14,7 @@ func init() {
 	register(&CheckDef{
 		ID:    "C04",
 		Level: "exploration",
-		Rule: "seeded single-node histories mixing every way a position changes or a database is rewritten: rollback-journal commits (3 finalisation modes), switch to WAL, WAL commits, application checkpoints (4 modes), LiteFS checkpoints/recover (role-change path), clean restart, crash restart at a quiescent point, import over /import (same and different page size, rollback/WAL header), drop and recreate; sizes straddle 256/257/512/513 pages; at every stable point the reported PostApplyChecksum is compared with a stdlib CRC64 recomputed from the raw database+WAL bytes (own WAL scanner) and a dropped/empty database must report exactly 1<<63. The replica-side and snapshot parts of the property are exercised by the same monitor inside the C01 runs. A case is one executed history step; distinct = distinct (step kind, journal mode, page size, size class) tuple; non-trivial = run with >= 3 position changes checked",
+		Rule:  "seeded single-node histories mixing every way a position changes or a database is rewritten: rollback-journal commits (3 finalisation modes), switch to WAL, WAL commits, application checkpoints (4 modes), LiteFS checkpoints/recover (role-change path), clean restart, crash restart at a quiescent point, import over /import (same and different page size, rollback/WAL header), drop and recreate; sizes straddle 256/257/512/513 pages; at every stable point the reported PostApplyChecksum is compared with a stdlib CRC64 recomputed from the raw database+WAL bytes (own WAL scanner) and a dropped/empty database must report exactly 1<<63. The replica-side and snapshot parts of the property are exercised by the same monitor inside the C01 runs. A case is one executed history step; distinct = distinct (step kind, journal mode, page size, size class) tuple; non-trivial = run with >= 3 position changes checked",
 		Run:   runC04,
 		NonTrivial: func(r *Run) bool {
 			return r.Stats["c04.checked.changed"] >= 3
